@@ -5705,3 +5705,194 @@ def c02_relay_registers(env):
 
 REGISTRY.setdefault("C10", []).append(c10_relay_forwards)
 REGISTRY.setdefault("C02", []).append(c02_relay_registers)
+
+
+# ---- C06: the payload of an incoming transfer is exactly what follows the performative in the frame ------------
+
+
+def c06_incoming_payload(env):
+    o = Obligation("c06_incoming_payload_is_what_follows_the_performative", "C06")
+    o.desc = "FrameDecoder::decode, transfer frames: the payload handed on is the bytes that are left in the frame buffer AFTER the deserializer has consumed the performative -- however the peer chose to encode it (non-compact widths, trailing defaults written out) -- i.e. it is split off the source buffer after the deserializer ran, with nothing advanced or truncated in between, and its length is what remained; locating the payload by any other measure (e.g. the length this crate would use to re-encode the performative) shifts it"
+    fn = env.fn(r"^amqp::<impl at fe2o3-amqp/src/frames/amqp\.rs[^>]*>::decode$")
+    o.functions = [fn.name]
+    o.bounds = ["frame length: every value < 2^32; header bytes symbolic; the deserializer consumes any prefix of what remains; one decode call"]
+    o.assumes = ["BytesMut::split / split_to / split_off / freeze / Into<Bytes> per their documented contract; the reader the deserializer works on consumes from the source buffer it borrows (Buf::reader)"]
+    FB = env.enums.get("FrameBody")
+    if not FB or "Transfer" not in FB:
+        raise mir.Unsupported("FrameBody layout not found")
+    ex = env.executor(max_visits=4)
+    R0 = BV64("frame.len")
+
+    def world(st):
+        return st.locals["@world"]
+
+    def is_src(ex_, st, x):
+        return isinstance(x, mir.Ref) and tuple(x.path)[:1] == ("@src",)
+
+    def piece(st, length, from_src):
+        w = world(st)
+        a = mir.Agg("bytes")
+        a["@len"] = length
+        a["@after_deser"] = w["deser"]
+        a["@rem_after_deser"] = w["rem_after_deser"]
+        a["@from_src"] = from_src
+        a["@touched"] = False
+        return a
+
+    def m_len(ex_, st, callee, args, argvals, dty):
+        return world(st)["rem"] if is_src(ex_, st, argvals[0]) else None
+
+    def m_is_empty(ex_, st, callee, args, argvals, dty):
+        return (world(st)["rem"] == 0) if is_src(ex_, st, argvals[0]) else None
+
+    def m_get(ex_, st, callee, args, argvals, dty):
+        m = re.search(r"::get_([ui])(\d+)(_le|_ne)?$", callee)
+        bits = int(m.group(2))
+        if is_src(ex_, st, argvals[0]):
+            w = world(st)
+            w["rem"] = w["rem"] - bits // 8
+        ex_.ctx.n += 1
+        return z3.BitVec(f"hdr.{ex_.ctx.n}.u{bits}", bits)
+
+    def deref(ex_, st, x):
+        k = 0
+        while isinstance(x, mir.Ref) and k < 4:
+            cont, key = ex_.resolve(st, list(x.path))
+            x = cont.get(key)
+            k += 1
+        return x
+
+    def m_advance(ex_, st, callee, args, argvals, dty):
+        if is_src(ex_, st, argvals[0]):
+            w = world(st)
+            w["rem"] = w["rem"] - argvals[1]
+        else:
+            t = deref(ex_, st, argvals[0])
+            if isinstance(t, mir.Agg) and "@len" in t:
+                t["@touched"] = True
+        return mir.Agg("unit")
+
+    def m_split_to(ex_, st, callee, args, argvals, dty):
+        if not is_src(ex_, st, argvals[0]):
+            return None
+        w = world(st)
+        w["rem"] = w["rem"] - argvals[1]
+        a = piece(st, argvals[1], True)
+        a["@touched"] = True  # a prefix of chosen length is not "what remains"
+        return a
+
+    def m_split(ex_, st, callee, args, argvals, dty):
+        if not is_src(ex_, st, argvals[0]):
+            return None
+        w = world(st)
+        a = piece(st, w["rem"], True)
+        w["rem"] = z3.BitVecVal(0, 64)
+        return a
+
+    def m_truncate(ex_, st, callee, args, argvals, dty):
+        if is_src(ex_, st, argvals[0]):
+            w = world(st)
+            w["rem"] = z3.If(z3.ULT(argvals[1], w["rem"]), argvals[1], w["rem"])
+        else:
+            t = deref(ex_, st, argvals[0])
+            if isinstance(t, mir.Agg) and "@len" in t:
+                t["@touched"] = True
+        return mir.Agg("unit")
+
+    def m_pass(ex_, st, callee, args, argvals, dty):
+        x = deref(ex_, st, argvals[0])
+        if isinstance(x, mir.Agg) and "@len" in x:
+            c = mir.Agg("bytes")
+            for k in ("@len", "@after_deser", "@rem_after_deser", "@from_src", "@touched"):
+                c[k] = x[k]
+            return c
+        return None
+
+    def m_deser(ex_, st, callee, args, argvals, dty):
+        w = world(st)
+        r2 = z3.BitVec(f"rem.after.deserialize#{ex_.ctx.n}", 64)
+        ex_.ctx.n += 1
+        ex_.assumptions.append(z3.ULE(r2, w["rem"]))
+        # the reader consumes from the buffer it was built on: the source buffer, if that is what was borrowed
+        if w["reader_on_src"]:
+            w["rem"] = r2
+        w["rem_after_deser"] = r2
+        w["deser"] = w["deser"] + 1
+        r = mir.Agg("Result")
+        ex_.new_discr(st, r, "Result")
+        okv = mir.Agg("Ok")
+        okv[0] = mir.Agg("value")
+        r[("as", "Ok")] = okv
+        return r
+
+    def m_reader(ex_, st, callee, args, argvals, dty):
+        world(st)["reader_on_src"] = is_src(ex_, st, argvals[0])
+        return mir.Agg("opaque")
+
+    def m_keep(ex_, st, callee, args, argvals, dty):
+        return mir.Agg("opaque")
+
+    ex.models = [
+        (r"^BytesMut::len$|as Buf>::remaining$", m_len),
+        (r"^BytesMut::is_empty$", m_is_empty),
+        (r"as Buf>::get_[ui](8|16|32|64)(_le|_ne)?$", m_get),
+        (r"as Buf>::advance$", m_advance),
+        (r"^BytesMut::split_to$", m_split_to),
+        (r"^BytesMut::split$", m_split),
+        (r"^BytesMut::truncate$|^BytesMut::clear$|^(bytes::)?Bytes::truncate$", m_truncate),
+        (r"^BytesMut::freeze$|<BytesMut as Into<(bytes::)?Bytes>>::into$|<(bytes::)?Bytes as From<BytesMut>>::from$|<(bytes::)?Bytes as Clone>::clone$", m_pass),
+        (r"as Buf>::reader$", m_reader),
+        (r"^IoReader::<.*>::new$|Deserializer::<.*>::new$", m_keep),
+        (r"as Deserialize<'_>>::deserialize::<", m_deser),
+    ]
+    w = mir.Agg("world")
+    w["rem"], w["deser"], w["rem_after_deser"], w["reader_on_src"] = R0, 0, None, False
+    paths = ex.run(fn, {"_1": mir.Ref(("@dec",), True), "@dec": mir.Agg("decoder"), "_2": mir.Ref(("@src",), True), "@src": mir.Agg("src"), "@world": w})
+    hyp = ex.assumptions + [z3.ULT(R0, 1 << 32), z3.UGE(R0, 4)]
+
+    def replay(m):
+        return "noncompact_transfer", (lambda js: js.get("panic") or not js["payload_intact"])
+
+    n = 0
+    for i, p in enumerate(paths):
+        if p.end != "return" or not isinstance(p.ret, mir.Agg):
+            continue
+        okv = p.ret.get(("as", "Ok"))
+        opt = okv.get(0) if isinstance(okv, mir.Agg) else None
+        some = opt.get(("as", "Some")) if isinstance(opt, mir.Agg) else None
+        frame = some.get(0) if isinstance(some, mir.Agg) else None
+        if not isinstance(frame, mir.Agg):
+            continue
+        body = None
+        for k in list(frame.keys()):
+            v = frame.get(k)
+            if isinstance(v, mir.Agg) and "#d" in v and ("as", "Transfer") in v:
+                body = v
+        if body is None:
+            continue
+        d = z3.simplify(body["#d"])
+        if not (z3.is_bv_value(d) and d.as_long() == FB["Transfer"]):
+            continue
+        H = hyp + p.cond + [p.ret["#d"] == 0]
+        s = z3.Solver()
+        s.add(*H)
+        if s.check() != z3.sat:
+            continue
+        n += 1
+        tr = body[("as", "Transfer")]
+        pay = None
+        for k in list(tr.keys()):
+            v = tr.get(k)
+            if isinstance(v, mir.Agg) and "@len" in v:
+                pay = v
+        if pay is None:
+            o.prove(f"path{i}:payload-is-taken-from-the-frame-buffer", H, z3.BoolVal(False), replay=replay)
+            continue
+        o.prove(f"path{i}:payload-is-split-off-the-frame-buffer-after-the-performative-was-read", H, z3.BoolVal(bool(pay["@from_src"]) and pay["@after_deser"] == 1 and not pay["@touched"]), replay=replay)
+        if pay["@rem_after_deser"] is not None:
+            o.prove(f"path{i}:payload-length-is-what-the-deserializer-left", H, pay["@len"] == pay["@rem_after_deser"], replay=replay)
+    o.cover("transfer paths", [z3.BoolVal(n > 0)])
+    return [o]
+
+
+REGISTRY.setdefault("C06", []).append(c06_incoming_payload)
